@@ -3,7 +3,7 @@ CONSTANTS
   MaxFields = 1
   TagNumbers = {0, 15, 16, 2047, 2048, 65535, 70000}
   MaxId = 2
-  GenKinds = {"bool","int","i32","i64","s32","s64","uint","u32","u64","x32","x64","flt","dbl","str","byt","arr","arr7","arr15","arr16","m1","m2","m3","m4"}
+  GenKinds = {"bool","int","i32","i64","s32","s64","uint","u32","u64","x32","x64","flt","dbl","str","byt","arr","arr7","arr15","arr16","rawm","pmsg","cmsg","m1","m2","m3","m4"}
   FixPresence = TRUE
   FixEmptyMap = TRUE
   RepTagged = TRUE
